@@ -186,16 +186,25 @@ theorem fixed_homogeneous_tuple :
     ∧ verdict (flat "K" ["t"] [("t", .tupleOf (.integer {}) false)])
       (.inst "K" [("t", .tuple [.int 1, .int 2, .int 3])]) = true := by decide
 
+/-- what the Deserializer says about a document the schema admits -/
+def admittedButRejected (cls : FieldDecl) (doc : PyVal) : Bool :=
+  schemaAccepts anyS cls (refDepth cls) doc
+    && (match deserialize anyO {} cls doc with | .ok _ => false | .error _ => true)
+
 def wrapperInner : FieldDecl :=
   .struct { name := "Inner", required := ["a"], addl := false, accepts := ["Inner"] } [("a", .integer {})] []
 
-/-- finding `admits:nested-field-wrapper`: a nested class with one required field and no additional
-    properties gets the bare field's schema but serializes as an object -/
-theorem counterexample_nested_field_wrapper :
-    wellFormed anyO (flat "Outer" ["i"] [("i", wrapperInner), ("b", .boolean)])
+/-- fixed (da4a1d5, was findings `admits:nested-field-wrapper` / `exact:nested-field-wrapper`): a
+    nested class with one required field and no additional properties is now exported as an object
+    schema; inside `schema_admits_partial` -/
+theorem fixed_nested_field_wrapper :
+    inSchemaFragment (flat "Outer" ["i"] [("i", wrapperInner), ("b", .boolean)]) = true
+    ∧ inAdmitRegion anyO (flat "Outer" ["i"] [("i", wrapperInner), ("b", .boolean)])
       (.inst "Outer" [("i", .inst "Inner" [("a", .int 1)])]) = true
     ∧ verdict (flat "Outer" ["i"] [("i", wrapperInner), ("b", .boolean)])
-      (.inst "Outer" [("i", .inst "Inner" [("a", .int 1)])]) = false := by decide
+      (.inst "Outer" [("i", .inst "Inner" [("a", .int 1)])]) = true
+    ∧ admittedButRejected (flat "Outer" ["i"] [("i", wrapperInner), ("b", .boolean)])
+      (.dict [(.str "i", .int 5)]) = false := by decide
 
 /-- finding `admits:default-marked-required`: a field with a default is listed under `required`,
     but under `_ignore_none` an explicit `None` leaves it unset -/
@@ -264,11 +273,6 @@ theorem fixed_multiple_of_negative :
     ∧ wfOf (flat "K" ["a"] [("a", .integer { mult := some (-2) }), ("b", .boolean)]) = true
     ∧ verdict (flat "K" ["a"] [("a", .integer { mult := some (-2) }), ("b", .boolean)])
         (.inst "K" [("a", .int (-4))]) = true := by decide
-
-/-- what the Deserializer says about a document the schema admits -/
-def admittedButRejected (cls : FieldDecl) (doc : PyVal) : Bool :=
-  schemaAccepts anyS cls (refDepth cls) doc
-    && (match deserialize anyO {} cls doc with | .ok _ => false | .error _ => true)
 
 /-- finding `exact:positional-shorter`: positional `Tuple` / `Array` items carry no `minItems`, so
     a shorter array is admitted by the schema and rejected by the Deserializer -/
